@@ -198,7 +198,10 @@ def _one(rng, fam, mon, sigs, hist):
                 fm = solver.force_matrices[t]
                 for kw in ({}, {"b_matrix": "velocity"}, {"b_matrix": "velocity", "adimensional_velocity": True},
                            {"b_matrix": "velocity", "adimensional_velocity": bool(rng.integers(2)),
-                            "velocity_normalization": float(10 ** rng.uniform(-2, 2))}):
+                            "velocity_normalization": float(10 ** rng.uniform(-2, 2))},
+                           # zero is a value like any other (it switches the velocity term off), int or float
+                           {"b_matrix": "velocity", "adimensional_velocity": bool(rng.integers(2)),
+                            "velocity_normalization": [0, 0.0][int(rng.integers(2))]}):
                     fm.set_velocity_matrix(mesh, **kw)
             except Exception as exc:
                 import traceback
